@@ -19,6 +19,10 @@ var pathNames = []string{"insertionSort", "heapSort(limit=0)", "breakPatterns", 
 
 var pathAdv, pathOthers []string
 
+// branches the targeted family must reach (indexes into pathNames): heapsort fallback, breakPatterns, reverseRange,
+// partialInsertionSort true / false, partitionEqual
+var requiredBranches = []int{1, 2, 3, 4, 5, 6}
+
 func decodePaths(v int64) []string {
 	var out []string
 	for i, n := range pathNames {
@@ -29,15 +33,15 @@ func decodePaths(v int64) []string {
 	return out
 }
 
-func evalPaths(outdir string) map[string]interface{} {
-	res := map[string]interface{}{}
+func evalPaths(outdir string) (res map[string]interface{}, evaluated bool, missingRequired []string) {
+	res = map[string]interface{}{}
 	if len(pathAdv)+len(pathOthers) == 0 {
-		return res
+		return
 	}
 	theories, _ := filepath.Abs(filepath.Join("..", "coq", "theories"))
 	if _, err := os.Stat(filepath.Join(theories, "C10", "Check.vo")); err != nil {
 		res["status"] = "not evaluated: compiled C10/Check.vo not found from " + theories
-		return res
+		return
 	}
 	src := "From VF Require Import C10.Model C10.SortModel C10.Spec C10.Check.\nLocal Open Scope Z_scope.\n" +
 		"Definition adv : list case := [\n" + strings.Join(pathAdv, ";\n") + "\n].\n" +
@@ -47,7 +51,7 @@ func evalPaths(outdir string) map[string]interface{} {
 	file := filepath.Join(outdir, "paths.v")
 	if err := os.WriteFile(file, []byte(src), 0o644); err != nil {
 		res["status"] = "not evaluated: " + err.Error()
-		return res
+		return
 	}
 	ctx, cancel := context.WithTimeout(context.Background(), 120*time.Second)
 	defer cancel()
@@ -56,24 +60,40 @@ func evalPaths(outdir string) map[string]interface{} {
 	out, err := cmd.CombinedOutput()
 	if err != nil {
 		res["status"] = "not evaluated: coqc: " + err.Error()
-		return res
+		return
 	}
 	flat := strings.Join(strings.Fields(string(out)), " ")
 	var union int64
 	if m := regexp.MustCompile(`PA = \[([^\]]*)\]`).FindStringSubmatch(flat); m != nil {
-		var per []interface{}
+		counts := make([]int, len(pathNames))
 		for _, f := range strings.Split(m[1], ";") {
 			v, _ := strconv.ParseInt(strings.TrimSpace(f), 10, 64)
 			union |= v
-			per = append(per, decodePaths(v))
+			for i := range pathNames {
+				if v&(1<<uint(i)) != 0 {
+					counts[i]++
+				}
+			}
 		}
-		res["anti_quicksort_cases"] = per
+		per := map[string]int{}
+		for i, n := range pathNames {
+			per[n] = counts[i]
+		}
+		res["targeted_cases_reaching_branch"] = per
+		res["heapsort_fallback_cases"] = counts[1]
+		for _, i := range requiredBranches {
+			if counts[i] == 0 {
+				missingRequired = append(missingRequired, pathNames[i])
+			}
+		}
+		res["coverage_ok"] = len(missingRequired) == 0
+		evaluated = true
 	}
 	if m := regexp.MustCompile(`PO = (\d+)`).FindStringSubmatch(flat); m != nil {
 		v, _ := strconv.ParseInt(m[1], 10, 64)
 		union |= v
 	}
-	res["status"] = fmt.Sprintf("evaluated on %d adversarial and %d sampled sort cases", len(pathAdv), len(pathOthers))
+	res["status"] = fmt.Sprintf("evaluated on %d targeted (SortFunc replays through the model) and %d sampled sort cases", len(pathAdv), len(pathOthers))
 	res["branches_hit"] = decodePaths(union)
 	var missing []string
 	for i, n := range pathNames {
@@ -82,5 +102,5 @@ func evalPaths(outdir string) map[string]interface{} {
 		}
 	}
 	res["branches_not_hit_by_the_sample"] = missing
-	return res
+	return
 }
